@@ -98,6 +98,12 @@ prop("C17", claimed=True, level="model_checking", engine="E-SEQ (history engine 
      note="Depth, segment sizes and the value alphabet are bounded; sort values include negatives / pre-1970 dates, duplicates and missing values.",
      design_ref="3/C17")
 
+prop("C18", claimed=True, level="model_checking", engine="E-SEQ (explicit-state lifecycles in isolated workers)",
+     technique="explicit enumeration of all applicable writer-lifecycle sequences up to a depth over several Index handles of one directory, replayed on fresh real objects against a one-variable model (who holds the writer)",
+     text="Every sequence of exactly 4 (thorough 5) lifecycle steps over a clone and a separately opened Index of the same directory (thorough also 3 handles): create with valid options, with 0 threads / 1 kB / 4 GiB budget / 0 merge threads (failed constructions), rollback, drop, wait_merging_threads, prepare + abort, kill an indexing worker, commit; on RamDirectory, SimDirectory and MmapDirectory. Creation succeeds iff no writer is alive on any handle; a refused creation is a lock failure and leaves the live writer able to add and commit; the lock survives rollback (also of a killed writer) and after releasing everything every handle can create a writer.",
+     note="Concurrent creation attempts are only exercised by an auxiliary sampled race of 4 real threads (labelled as such in the evidence): atomicity inside a directory's open_write has no scheduling point the harness could control. Cross-process locking is exercised in-process with separate Index instances.",
+     design_ref="3/C18")
+
 ALL = ["C%02d" % i for i in range(1, 21)]
 REASON_TODO = "check not built yet in this revision of /verif (design in DESIGN.md section 3); will be claimed when its engine lands"
 
